@@ -461,6 +461,41 @@ def isolation_matrix(R, B, rng):
                         if content(cell) != want or cell.hash != h0 or cell.to_boc(True, True) != boc0:
                             R.violation(f'source-cell-changed-{fname}-{sname}', f'{fname}() then {sname}(): using the derived objects changed the cell they came from', W)
                     R.cover('isolation_pairs', (fname, sname))
+            # what the accessors hand out belongs to the caller: whatever of it is mutable is changed in place, the cell stays what it was
+            for aname, get in (('data', lambda: cell.data), ('get_data_bytes', lambda: cell.get_data_bytes()), ('get_representation', lambda: cell.get_representation()),
+                               ('to_boc', lambda: cell.to_boc()), ('order', lambda: cell.order()), ('hash', lambda: cell.hash), ('get_hash', lambda: cell.get_hash(0)),
+                               ('refs-of-copy', lambda: cell.copy().refs), ('bits-of-copy', lambda: cell.copy().bits), ('begin_parse.refs', lambda: cell.begin_parse().refs)):
+                st, x = mon.call(get)
+                if st == 'exc':
+                    continue
+                if isinstance(x, bytearray):
+                    x += b'\xff\x00'
+                    x[0:1] = b'\x55'
+                elif isinstance(x, list):
+                    x.append(None)
+                    x.reverse()
+                elif isinstance(x, dict):
+                    x.clear()
+                elif hasattr(x, 'invert') and hasattr(x, 'to01'):
+                    mon.call(x.invert)
+                    mon.call(lambda: x.extend('1'))
+                R.count('accessor_results_mutated')
+                if content(cell) != want or cell.hash != h0 or cell.to_boc(True, True) != boc0 or mon.call(cell.calculate_representation_hash) != ('ok', h0) or cell.copy().hash != h0:
+                    R.violation(f'accessor-result-aliases-cell-{aname}', f'changing in place what {aname} returned ({type(x).__name__}) changed the cell', {'bits': nbits, 'refs': nrefs, 'accessor': aname})
+            # a slice whose references have all been read still is its remaining content, whichever way it is turned into a cell
+            if nrefs:
+                only_bits = B.Builder().store_bits(bits).end_cell().hash
+
+                def spent():
+                    s_ = cell.begin_parse()
+                    while s_.remaining_refs:
+                        s_.load_ref()
+                    return s_
+                for cname, conv in (('to_cell', lambda s_: s_.to_cell()), ('copy.to_cell', lambda s_: s_.copy().to_cell()), ('to_builder.end_cell', lambda s_: s_.to_builder().end_cell()),
+                                    ('store_slice.end_cell', lambda s_: B.Builder().store_slice(s_).end_cell())):
+                    st, got = mon.call(lambda: conv(spent()))
+                    R.check(st == 'ok' and got.hash == only_bits and len(got.refs) == 0, f'spent-slice-{cname}', f'a slice with all {nrefs} references read, turned into a cell by {cname}: '
+                            f'{mon.srepr(got, 60)} is not the cell of its remaining {nbits} bits', {'bits': nbits, 'refs': nrefs, 'conversion': cname})
 
 
 def order_independence(R):
